@@ -36,8 +36,14 @@ def s2(ctx, rep):
         raise AnchorError("StoreResultsCallback.on_trial_result: appended row variable not found")
     want = {"ST_DECISION": "decision", "ST_STATUS": "status", "ST_TRIAL_ID": "trial.trial_id"}
     got = {}
-    for st in walk_shallow(f.node):
-        if isinstance(st, ast.Assign) and isinstance(st.targets[0], ast.Subscript) and U(st.targets[0].value) == row:
+    # stores into the dict that is appended, under whatever local name it goes at the place of the store
+    from .common import same_object
+    app_nid = [nid for nid, c in ctx.calls_in(f, method="append") if c is app[0]][0]
+    is_row = same_object(f, row, app_nid)
+    for n_ in cfg.nodes:
+        st = n_.ast
+        if n_.kind == "stmt" and isinstance(st, ast.Assign) and isinstance(st.targets[0], ast.Subscript) and isinstance(st.targets[0].value, ast.Name) \
+                and is_row(st.targets[0].value.id, n_.id):
             got[U(st.targets[0].slice)] = (U(st.value), st)
     for k, v in want.items():
         ok = k in got and got[k][0] == v
@@ -53,7 +59,9 @@ def s2(ctx, rep):
     if ok:
         body = loops[0].body
         kv = U(loops[0].target) if not isinstance(loops[0].target, ast.Tuple) else U(loops[0].target.elts[0])
-        ok = len(body) == 1 and isinstance(body[0], ast.Assign) and U(body[0].targets[0].value) == row and \
+        lnid = [n_.id for n_ in cfg.nodes if n_.kind == "stmt" and n_.ast is body[0]]
+        ok = len(body) == 1 and isinstance(body[0], ast.Assign) and isinstance(body[0].targets[0], ast.Subscript) and \
+            isinstance(body[0].targets[0].value, ast.Name) and bool(lnid) and is_row(body[0].targets[0].value.id, lnid[0]) and \
             isinstance(body[0].targets[0].slice, ast.JoinedStr) and U(body[0].targets[0].slice).replace('"', "'") == f"f'config_{{{kv}}}'" and \
             (U(body[0].value) == f"trial.config[{kv}]" or (isinstance(loops[0].target, ast.Tuple) and U(body[0].value) == U(loops[0].target.elts[1])))
     rep.put(ok, "S2", "agreement", "StoreResultsCallback.on_trial_result: one config_<key> column per key of the trial's configuration", f,
